@@ -68,6 +68,19 @@ fn gen_weights(g: &mut Gen, tiny_lo: f64, tiny_hi: f64) -> Vec<f64> {
         let i = g.usize(0, len - 1);
         w[i] = scale;
     }
+    // "almost normalised" inputs: probabilities that were normalised elsewhere and then rounded to a
+    // few decimals (the sum is off from 1 by far more than an ulp, far less than a percent)
+    if g.bool(1, 6) {
+        let sum: f64 = w.iter().sum();
+        let digits = *g.pick(&[3i32, 4, 5, 6, 8]);
+        let q = 10f64.powi(digits);
+        for x in w.iter_mut() {
+            *x = (*x / sum * q).round() / q;
+        }
+        if w.iter().all(|x| *x == 0.0) {
+            w[0] = 1.0;
+        }
+    }
     w
 }
 
